@@ -31,15 +31,12 @@ const concRule = "rapid: 2-4 publisher goroutines x generated (id, level) sequen
 
 func genConc(t *rapid.T) ConcCase {
 	var c ConcCase
-	p := rapid.IntRange(2, 4).Draw(t, "publishers")
-	for i := 0; i < p; i++ {
-		n := rapid.IntRange(0, 40).Draw(t, "n")
-		seq := make([]CEvent, n)
-		for j := range seq {
-			seq[j] = CEvent{I: rapid.IntRange(0, 3).Draw(t, "id"), L: rapid.IntRange(0, 3).Draw(t, "level")}
-		}
-		c.Pubs = append(c.Pubs, seq)
-	}
+	ev := rapid.Custom(func(t *rapid.T) CEvent {
+		return CEvent{I: rapid.IntRange(0, 3).Draw(t, "id"), L: rapid.IntRange(0, 3).Draw(t, "level")}
+	})
+	// rapid prefers short slices: a drawn minimum length keeps long sequences frequent, and shrinks away first
+	min := rapid.IntRange(0, 40).Draw(t, "minEvents")
+	c.Pubs = rapid.SliceOfN(rapid.SliceOfN(ev, min, 60), 2, 4).Draw(t, "publishers")
 	c.Handlers = rapid.IntRange(1, 3).Draw(t, "handlers")
 	c.Readers = rapid.IntRange(0, 2).Draw(t, "readers")
 	return c
